@@ -46,7 +46,7 @@ var stackKnobs = []int{0, 1, 2, 7}
 func parserGrammars(includeAmbiguous, includeLexOnly bool) []*corpus.Grammar {
 	var out []*corpus.Grammar
 	for _, g := range corpus.Fixed() {
-		if g.GoccOnly || !g.HasSyntax() && !includeLexOnly {
+		if g.GoccOnly || g.Heavy || !g.HasSyntax() && !includeLexOnly {
 			continue
 		}
 		if g.Ambiguous && !includeAmbiguous {
@@ -72,6 +72,7 @@ func RunC03(c *Ctx) error {
 		return Harnessf("build: %v", err)
 	}
 	grammars := parserGrammars(false, false)
+	grammars = append(grammars, corpus.ByID(corpus.Fixed(), "manyprods")) // size limits of table entries
 	if c.Tier == "thorough" {
 		grammars = append(grammars, randomGrammars(c.Seed, 24)...)
 	}
